@@ -2,6 +2,8 @@
 #include "kernel.c"
 #include "vharness.h"
 #define NEED_THROWS
+#define NEED_STRING_NOGROW
+#define NEED_STRING_REPLACE
 #include "vmodels.h"
 #ifndef L
 #define L 2
